@@ -114,7 +114,7 @@ def sym_groups(tier, seed):
             calls = []
             if (isa, sz) == full_cfg:
                 every = all_shapes(4, 4)
-                shapes = every if not quick else [s for s in every if len(s) < 4 or max(s) <= 2] + rng.sample([s for s in every if len(s) == 4 and max(s) > 2], 30)
+                shapes = every
                 for s in shapes:
                     calls.append(layout_call(sz, "tocm", "t", s)); calls.append(layout_call(sz, "torm", "t", s))
                 for s in rng.sample(shapes, 30 if quick else 200):
@@ -143,7 +143,7 @@ def sym_groups(tier, seed):
                     calls.append(layout_call(sz, rng.choice(["tocm", "torm"]), "m", (n,)))
                 calls.append(ilist_call(sz, rng.choice([s for s in all_shapes(4, 3) if prod(s) <= 40])))
             # ---- operation sequences through maps and sources (same translation units as the layout sample)
-            ncase = (8 if isa != "scalar" else 4) if quick else 60
+            ncase = (12 if isa != "scalar" else 6) if quick else 60
             for (kind, mis, sd, md) in map_cases(rng, isa, sz, ncase, 40 if quick else 72):
                 ids = sorted(rng.sample(range(NEXPR), 2) if quick else rng.sample(range(NEXPR), 3))
                 if not (set(ids) & READS_X): ids[0] = rng.choice(sorted(READS_X - set(ids)))
@@ -199,7 +199,7 @@ def run(tier, seed):
                      "element-wise expression, assignment from the other name, same-type copy assignment, reading into an owning tensor; views, reductions and "
                      "evaluation-requiring right-hand sides through maps are value-tested on the real types only",
                      "real-type runs use small integer values (exact in float/double, no integer overflow)"],
-        rule="layout: every shape of rank 1-4 with extents <= 4 (quick: rank 4 restricted to extents <= 3 plus a 25% sample) x {tocolumnmajor, torowmajor} + sampled "
+        rule="layout: every shape of rank 1-4 with extents <= 4 x {tocolumnmajor, torowmajor} + sampled "
              "round trips / constructors / map sources / nested initializer lists / seeded rank 5-6; mapops: seeded (kind, source shape, map shape of equal size, "
              "operation sequence of length 1-6 alternating between the names) per (ISA, element size); non-trivial = rank >= 2 resp. at least two operations",
         nontrivial=nontrivial, per_tu=70)
